@@ -1,4 +1,5 @@
 import GoaVerif.Model.Proto
+import GoaVerif.Model.GrpcHandler
 /-!
 # C10 — gRPC definitions are well formed (request-message field numbers)
 
@@ -88,6 +89,43 @@ theorem metadata_gap :
 theorem streaming_gap :
     let e : Endpoint := ⟨[⟨"b", some 2, false, false⟩, ⟨"c", some 2, false, false⟩], none, [], true⟩
     accepted e = true ∧ wfFields (requestFields e) = false := by decide
+
+/-! ### The runtime around the generated code: unary handler and invoker
+`Model/GrpcHandler.lean` (status function translated from /repo); tied by `rtgrpc` ↔ `drv_grpc` over a
+real grpc transport. -/
+section handler
+open GoaVerif.GrpcHandler GoaVerif.Generated.TrGrpcerr
+
+theorem grpcErrorCode_ne_ok (e : ServiceError) : grpcErrorCode e ≠ 0 := by
+  obtain ⟨_, _, _, t, tmp, f⟩ := e
+  cases t <;> cases tmp <;> cases f <;> simp [grpcErrorCode, Id.run] <;> decide
+
+/-- **Results with headers and trailers**: when decoder, endpoint and encoder succeed the caller gets the
+    message, exactly the header metadata and exactly the trailer metadata the encoder produced —
+    whatever the other one holds (a non-empty header does not cost the trailers, and conversely). -/
+theorem unary_success_delivers_metadata (s : Spec) (hd : s.dec = .ok) (he : s.ep = .ok) (hc : s.enc = .ok) :
+    unary s = ⟨0, true, true, s.hdr, s.trlr⟩ := by
+  unfold unary; rw [hd, he, hc]
+
+/-- A failure anywhere delivers no message and no metadata, with a status that is not OK. -/
+theorem unary_failure_delivers_nothing (s : Spec) (h : ¬ (s.dec = .ok ∧ s.ep = .ok ∧ s.enc = .ok)) :
+    (unary s).result = false ∧ (unary s).hdr = [] ∧ (unary s).trlr = [] ∧ (unary s).code ≠ 0 := by
+  obtain ⟨d, e, c, hd, tr⟩ := s
+  cases d <;> cases e <;> cases c <;> simp_all [unary, failed, codeOf, grpcErrorCode_ne_ok]
+
+/-- **Invalid requests are refused before user code**: the endpoint runs iff the request decoder
+    (which validates the message) succeeded. -/
+theorem user_code_runs_iff_decoded (s : Spec) : (unary s).ran = true ↔ s.dec = .ok := by
+  obtain ⟨d, e, c, hd, tr⟩ := s
+  cases d <;> cases e <;> cases c <;> simp [unary, failed]
+
+/-- a request the decoder refuses with an ordinary error is answered InvalidArgument -/
+theorem undecodable_request_is_invalid_argument (s : Spec) (h : s.dec = .plain) : (unary s).code = 3 := by
+  unfold unary; rw [h]; rfl
+
+example : unary ⟨.ok, .ok, .ok, [("x-a", ["h"])], [("x-b", ["t1", "t2"])]⟩ = ⟨0, true, true, [("x-a", ["h"])], [("x-b", ["t1", "t2"])]⟩ := rfl
+example : (unary ⟨.svc { Temporary := true }, .ok, .ok, [], []⟩).code = 14 := by decide
+end handler
 
 /-! ### Non-vacuity -/
 example : accepted ⟨[⟨"a", some 1, false, false⟩, ⟨"u", none, true, false⟩, ⟨"b", some 3, false, false⟩, ⟨"tok", none, false, true⟩], none, [], false⟩ = true := by decide
